@@ -359,12 +359,18 @@ fn c20(model: &str, rng: &mut Rng, out: &mut CaseOut, deadline: Instant) {
     out.key = format!("{model}|{text}");
     let Some(coloured) = eval(out, || mc::model_check_formula_dirty(&text, &m.graph), &text) else { return };
     let mut answers = Vec::new();
-    for _ in 0..3 {
+    for round in 0..3 {
         if Instant::now() > deadline {
             return;
         }
-        // a random valid colour: fix random parameter literals while the set stays non-empty
-        let mut colours = m.graph.mk_unit_colors();
+        // a random valid colour: fix random parameter literals while the set stays non-empty; the first
+        // one is drawn from the colours for which the formula holds somewhere, the second from the others
+        let holds_for = coloured.colors();
+        let mut colours = match round {
+            0 if !holds_for.is_empty() => holds_for,
+            1 if !m.graph.mk_unit_colors().minus(&holds_for).is_empty() => m.graph.mk_unit_colors().minus(&holds_for),
+            _ => m.graph.mk_unit_colors(),
+        };
         let mut params = ctx.parameter_variables().clone();
         rng.shuffle(&mut params);
         for p in params {
